@@ -12,6 +12,7 @@ import PLS.Model.Lsp
 import PLS.Model.Completion
 import PLS.Model.Config
 import PLS.Model.Conc
+import PLS.Model.Conc10
 import PLS.Generated
 import PLS.Spec.Pytest
 import Driver.Sexp
@@ -392,6 +393,109 @@ def runConc (t : List String) : String :=
     (if left == 0 then "" else s!"INCOMPLETE({left}) ") ++ ";".intercalate shown
   | _ => "BADCONC"
 
+/-! ### `q conc10`: replay of one interleaving of scan visits / notifications (C10) -/
+
+namespace C10R
+open PLS.Conc10
+
+def pcStr : Pc → String
+  | .take => "take"
+  | .retain todo => "retain(" ++ ",".intercalate todo ++ ")"
+  | .cond k f _ => s!"cond({k},{f})"
+  | .push news => "push(" ++ ",".intercalate (news.map (·.1)) ++ ")"
+  | .ins k _ => s!"ins({k})"
+  | .done => "done"
+
+def silent : Pc → Bool
+  | .retain [] => true
+  | .push [] => true
+  | _ => false
+
+/-- the iteration order of the `HashSet` of names is an input: bring `k` to the front -/
+def alignRetain (w : Worker) (k : Key) : Worker :=
+  match w.pc with
+  | .retain todo => if todo.contains k then { w with pc := .retain (k :: todo.erase k) } else w
+  | _ => w
+
+def pcMatches (pc : Pc) (op : String) (k : String) : Bool :=
+  match pc, op with
+  | .take, "t" => true
+  | .retain (k' :: _), "r" => k' == k
+  | .cond k' _ _, "c" => k' == k
+  | .push ((k', _) :: _), "p" => k' == k
+  | .ins _ _, "i" => true
+  | _, _ => false
+
+def runSilent (fuel : Nat) (y : Sys) (i : Nat) : Sys :=
+  match fuel with
+  | 0 => y
+  | f + 1 => if silent (y.ws i).pc then runSilent f (stepSys y i) i else y
+
+def parseNews (tok : String) : List (Key × Nat) :=
+  if tok == "-" then [] else (tok.splitOn ",").filterMap (fun x =>
+    match x.splitOn "." with
+    | [k, t] => some (k, t.toNat!)
+    | _ => none)
+
+def replay (t : List String) : String :=
+  match splitBar t with
+  | [init, workers, steps] =>
+    let dInit : List (String × List Ent) := init.filterMap (fun e =>
+      if e.startsWith "@" then none else
+      match e.splitOn ":" with
+      | [k, v] => some (k, (v.splitOn "+").filterMap (fun x =>
+          match x.splitOn "." with
+          | [f, tg] => some (⟨f.toNat!, tg.toNat!⟩ : Ent)
+          | _ => none))
+      | _ => none)
+    let fInit : List (Nat × List String) := init.filterMap (fun e =>
+      if e.startsWith "@" then
+        match (e.drop 1).toString.splitOn ":" with
+        | [f, v] => some (f.toNat!, (v.splitOn "+").filter (· != ""))
+        | _ => none
+      else none)
+    let s0 : St := { d := fun k => (dInit.find? (·.1 == k)).map (·.2), fd := fun f => (fInit.find? (·.1 == f)).map (·.2) }
+    let wl : List Worker := workers.filterMap (fun w =>
+      match w.splitOn "/" with
+      | [f, kind, news] =>
+        let n := parseNews news
+        some (if kind == "E" then editWorker f.toNat! n else scanWorker f.toNat! n)
+      | _ => none)
+    let ws : Nat → Worker := fun j => wl.getD j idle
+    let go := steps.foldl (fun (acc : Sys × Option String × Nat) tok =>
+      let (y, err, n) := acc
+      match err with
+      | some _ => acc
+      | none =>
+        match tok.splitOn "." with
+        | i :: op :: rest =>
+          let i := i.toNat!
+          let k := rest.headD ""
+          let y := runSilent 4 y i
+          let y : Sys := if op == "r" then { y with ws := setW y.ws i (alignRetain (y.ws i) k) } else y
+          if pcMatches (y.ws i).pc op k then (stepSys y i, none, n + 1)
+          else (y, some s!"MISMATCH step {n} worker {i}: implementation does {op}({k}), model is at {pcStr (y.ws i).pc}", n)
+        | _ => (y, some s!"BADTOKEN {tok}", n)) (({ s := s0, ws := ws } : Sys), none, 0)
+    match go.2.1 with
+    | some e => e
+    | none =>
+      let y := (List.range wl.length).foldl (fun y i => runSilent 4 y i) go.1
+      let undone := (List.range wl.length).filter (fun i => match (y.ws i).pc with | .done => false | _ => true)
+      let keys := ((dInit.map (·.1)) ++ wl.flatMap (fun w => w.news.map (·.1))).eraseDups
+      let files := ((fInit.map (·.1)) ++ wl.map (·.file)).eraseDups
+      let dOut := (keys.toArray.qsort (· < ·)).toList.filterMap (fun k =>
+        match y.s.d k with
+        | none => none
+        | some v => some (k ++ "=[" ++ ",".intercalate (v.map (fun e => s!"{e.file}.{e.tag}")) ++ "]"))
+      let fOut := (files.toArray.qsort (· < ·)).toList.filterMap (fun f =>
+        match y.s.fd f with
+        | none => none
+        | some v => some (s!"@{f}=[" ++ ",".intercalate (v.toArray.qsort (· < ·)).toList ++ "]"))
+      (if undone.isEmpty then "" else s!"UNDONE{undone} ") ++ ";".intercalate (dOut ++ fOut)
+  | _ => "BADCONC10"
+
+end C10R
+
 def runQ (c : CaseSt) (t : List String) : String × CaseSt :=
   match runH c t with
   | some r => r
@@ -400,6 +504,7 @@ def runQ (c : CaseSt) (t : List String) : String × CaseSt :=
   let upd (r : String × Index) : String × CaseSt := (r.1, { c with st := r.2 })
   match t with
   | "conc" :: rest => (runConc rest, c)
+  | "conc10" :: rest => (C10R.replay rest, c)
   | ["goto", p, l, ch] =>
     let (r, st) := st.goto (pathOf p) l.toNat! ch.toNat!
     upd (optDef r, st)
